@@ -220,6 +220,10 @@ def classify(f, v, stage, exn, ctx=None):
                 return "tuple-homogeneous:tail-not-deserialized"
     if t == "num" and v[0] == "dec":
         return "number:holding-Decimal"
+    if t == "enumcls" and stage == "deser-raises" and exn == "KeyError" and issubclass(G.ENUMS[f["cls"]], str):
+        # root cause C08-str-mixin-enum-deser: Enum.__set__ looks every str up with _enum_class[value], and a member of a
+        # str mix-in enum IS a str -- the member Enum.deserialize returned is looked up by itself
+        return "enumcls:str-mixin-member-looked-up-by-itself"
     if t == "enumlit" and v[0] == "dec":
         return "enumlit:holding-Decimal"
     return "shape=" + G.shape(f) + "/value=" + v[0]
